@@ -174,10 +174,20 @@ def subsetGids (f : Font) (isCff : Bool) (used : List Gid) : GAns :=
 
 /-! ### loca (byte level): `build_subset_font` collects `glyph_offsets`, then picks the format -/
 
-/-- `glyph_offsets`: running sum of the (instruction-stripped) glyph lengths, `N + 1` entries -/
+/-- `if new_glyf.len() % 2 != 0 { new_glyf.push(0) }` -/
+def padEven (n : Nat) : Nat := n + n % 2
+
+/-- `glyph_offsets`: `N + 1` entries; every (instruction-stripped) glyph is padded to an even
+    length, so every offset is even and representable in the short format -/
 def glyphOffsets : Nat → List Nat → List Nat
   | cur, [] => [cur]
-  | cur, l :: ls => cur :: glyphOffsets (cur + l) ls
+  | cur, l :: ls => cur :: glyphOffsets (padEven (cur + l)) ls
+
+/-- the offsets as the code computed them BEFORE the padding repair (`current_offset +=
+    stripped.len()`): kept as the regression the check must catch (`C12_witness_short_loca_odd`) -/
+def glyphOffsetsOld : Nat → List Nat → List Nat
+  | cur, [] => [cur]
+  | cur, l :: ls => cur :: glyphOffsetsOld (cur + l) ls
 
 /-- short format is kept iff the original was short and the last offset fits `2 * u16` -/
 def useShort (origShort : Bool) (total : Nat) : Bool := origShort && decide (total ≤ 0x1FFFE)
